@@ -146,6 +146,7 @@ fn model_raw(ans: &str) -> Result<(usize, Vec<Vec<Raw>>), String> {
                     }
                     Raw::Assign(text.trim_end().to_string())
                 }
+                "d" => Raw::Other(format!("setdisc {} {}", w[1], w[2])),
                 "r" => Raw::Ret(w[1].to_string()),
                 "j" => Raw::Jump(w[1].parse().map_err(|_| "jump")?),
                 "s" => Raw::Switch(w[1].to_string(), vec![(w[2].parse().map_err(|_| "switch")?, w[3].parse().map_err(|_| "switch")?)], Some(w[4].parse().map_err(|_| "switch")?)),
